@@ -4,6 +4,7 @@ from .rules.defassign import rule_defassign
 from .rules.dispatch import rule_dispatch, rule_stable
 from .rules.refusals import rule_assert, rule_kwsig, rule_raise, rule_regkey
 from .rules.truthy import rule_truthy
+from .rules.purity import rule_pure, rule_args, rule_global, rule_memo
 
 PROPERTIES = {
     "C01": {
@@ -22,6 +23,21 @@ PROPERTIES = {
                       "fills (0, 0.0, False) cannot be confused with 'not given'; the validity counter that implements min_count extends "
                       "every parallel tuple. Slot order, mask placement per plan and min_count arithmetic are not decided.",
         "explanation": "R-TRUTHY over every boolean context of every function; R-PARALLEL over the min_count branch",
+    },
+    "C13": {
+        "rules": [rule_pure],
+        "technique": "interprocedural origins (may-alias) dataflow over the CFG with function summaries; derived task roots",
+        "level_text": "Static, all-paths: no function reachable from a graph-embedded callable writes through a parameter, a view or "
+                      "alias of one, or an object inside one (subscript/attribute stores, augmented assignment, out=, in-place "
+                      "methods, np.put & co), judged at the task roots through function summaries.",
+        "explanation": "R-PURE",
+    },
+    "C14": {
+        "rules": [rule_args, rule_global, rule_memo],
+        "technique": "interprocedural origins dataflow; registry typestate (deep-copied before any store); memoisation key/purity checks",
+        "level_text": "Static, all-paths: API-reachable code never writes through an argument, the registry or a memoised result; the "
+                      "only module state is two content-keyed memo caches.",
+        "explanation": "R-ARGS, R-GLOBAL, R-MEMO",
     },
     "C19": {
         "rules": [rule_raise, rule_defassign, rule_regkey, rule_kwsig, rule_assert],
@@ -56,4 +72,4 @@ NOT_APPLICABLE = {
 
 # properties whose rules are designed (DESIGN.md §3) but not built yet: not claimed until they are
 PENDING = {p: "static rules designed in DESIGN.md but not built yet in this revision; not claimed"
-           for p in ["C02", "C03", "C06", "C07", "C08", "C09", "C10", "C11", "C12", "C13", "C14", "C16", "C18", "C20"]}
+           for p in ["C02", "C03", "C06", "C07", "C08", "C09", "C10", "C11", "C12", "C16", "C18", "C20"]}
